@@ -21,6 +21,38 @@ class PredRaise(Exception):
 RAISES = [PredRaise, StopIteration, AttributeError, IndexError, TypeError, ValueError]
 
 
+def _library_errors():
+    """every exception class the library itself defines (BoboPredicateError is the one it OFFERS to user predicates; a
+    user may as well re-raise any other it met): harvested from the package, so a new class is covered without anybody
+    remembering to list it"""
+    import importlib
+    import pkgutil
+    import bobocep
+    out = {}
+    for m in pkgutil.walk_packages(bobocep.__path__, 'bobocep.'):
+        try:
+            mod = importlib.import_module(m.name)
+        except Exception:   # noqa
+            continue
+        for v in vars(mod).values():
+            if isinstance(v, type) and issubclass(v, Exception) and (v.__module__ or '').startswith('bobocep'):
+                out[v.__module__ + '.' + v.__qualname__] = v
+    return [out[k] for k in sorted(out)]
+
+
+try:
+    LIB_RAISES = _library_errors()
+except Exception:   # noqa
+    LIB_RAISES = []
+
+
+def raise_class(n):
+    """the n-th exception class a harness predicate raises: builtin classes and the library's own, alternating"""
+    if n % 2 and LIB_RAISES:
+        return LIB_RAISES[(n // 2) % len(LIB_RAISES)]
+    return RAISES[(n // 2) % len(RAISES)]
+
+
 class Num:
     """an integer-like user value with NO JSON form (a reading object, a Decimal-like, a numpy scalar …): compares,
     hashes and prints like the int it stands for.  Events carrying it behave exactly like events carrying the int for
@@ -128,7 +160,7 @@ def mk_pred_fn(toks):
                 # (StopIteration ends an iterator, AttributeError / IndexError are swallowed by getattr-with-default and
                 # by the sequence-iteration protocol) and a rewrite of the calling code may let one of them be taken
                 # for something else than "the predicate raised"
-                raise RAISES[(k + (e.timestamp if isinstance(e.timestamp, int) else 0)) % len(RAISES)](k)
+                raise raise_class(k + (e.timestamp if isinstance(e.timestamp, int) else 0))(k)
             return inner(e, h)
         return f
     raise ValueError('bad predicate ' + ':'.join(toks))
@@ -243,7 +275,19 @@ def config_lines(phens, cache):
 
 # ---- events / records -----------------------------------------------------
 
+WEIRD_TS = -777000      # `ev` lines with a timestamp at or below this stand for an event stamped by ITS SOURCE with something that
+#                         is not a number of seconds (an ISO text, None): kept as given, it cannot be ordered against the others
+
+
+def weird_ts(ts):
+    if isinstance(ts, int) and ts <= WEIRD_TS:
+        k = WEIRD_TS - ts
+        return None if k % 3 == 2 else 'T2026-10-01-%04d' % k
+    return ts
+
+
 def mk_event(eid, ts, kind, data):
+    ts = weird_ts(ts)
     if OPAQUE['on'] and sum(map(ord, str(eid))) % 2 == 0:
         data = Num(data)           # every other event carries its number as a value without JSON form
     if kind == 's':
